@@ -138,6 +138,8 @@ class Interp:
             ty = e.get("ty")
             if is_symbolic(v):
                 return ("symcast", v, ty)
+            if getattr(self, "truncating_casts", False) and isinstance(v, int) and not isinstance(v, bool) and str(ty) in ("u8", "u16", "u32"):
+                return v & ((1 << int(str(ty)[1:])) - 1)         # `as` truncates; used where the VALUE does not matter (progress rule)
             return H.eval_expr({"k": "cast", "ty": ty, "e": _lit(v)}, {})
         if k == "binary":
             op = e["op"]
@@ -192,6 +194,13 @@ class Interp:
                 return ("range", args[0], args[1], True)
             if dk.startswith("Ctor"):
                 return ("v", f.get("ctor_of", fp), tuple(args))
+            if fp.endswith("TryFrom::try_from") and len(args) == 1 and isinstance(args[0], int) and not isinstance(args[0], bool):
+                import re as _re
+                m_ = _re.match(r"core::result::Result<u(\d+),", str(e.get("ty", "")))
+                if m_:
+                    if 0 <= args[0] < (1 << int(m_.group(1))):
+                        return ("v", "core::result::Result::Ok", (args[0],))
+                    return ("v", "core::result::Result::Err", (("sym", "TryFromIntError"),))
             if fp in self.facts.hir:
                 return self.call_fn(fp, args)
             return self.ext_call(fp, args)
